@@ -598,7 +598,8 @@ tdigest<T, A> tdigest<T, A>::deserialize_compat(const void* bytes, size_t size, 
 
 template<typename T, typename A>
 bool tdigest<T, A>::is_single_value() const {
-  return get_total_weight() == 1;
+  // a single value that is still buffered is written in the general form (with_buffer), so that it is restored as buffered
+  return get_total_weight() == 1 && buffer_.empty();
 }
 
 template<typename T, typename A>
